@@ -786,7 +786,15 @@ func runHs(t *testing.T, ksc KScenario, res *KResult) {
 		ctr := nodes.CTr
 		if sc.Token == "rebound" {
 			valid = false
-			addr := &net.UDPAddr{IP: net.IPv4(10, 0, 0, 99), Port: 4000}
+			addr := &net.UDPAddr{IP: net.IPv4(10, 0, 0, 99).To4(), Port: 4000}
+			if !sc.Cfg.V6 && sc.Seed%4 == 1 {
+				// an IPv6 host whose address begins with the four bytes of the IPv4 address the token was issued to
+				// (the token binds the whole address, not a prefix of its encoding)
+				ip := make(net.IP, 16)
+				copy(ip, wClientAddr.IP.To4())
+				ip[15] = 7
+				addr = &net.UDPAddr{IP: ip, Port: wClientAddr.Port}
+			}
 			if sc.Cfg.V6 {
 				// another host of the client's /64 (a token binds the address, not the prefix)
 				addr = &net.UDPAddr{IP: net.ParseIP("2001:db8:1:2:dead:beef:0:b"), Port: 4000}
